@@ -200,6 +200,33 @@ def _positive_controls(ctx):
          "def f(d, out):\n"
          "    files = [str(p) for p in d.iterdir()]\n"
          "    out.create_dataset('files', data=files)\n", True),
+        # a shared random stream consumed in set order
+        ('bad_rng_in_set_order',
+         "def f(names, rng, out):\n"
+         "    res = dict()\n"
+         "    for g in set(names):\n"
+         "        res[g] = rng.choice(5, 2)\n"
+         "    out.create_dataset('a', data=res['a'])\n", True),
+        ('good_rng_in_sorted_order',
+         "def f(names, rng, out):\n"
+         "    res = dict()\n"
+         "    for g in sorted(set(names)):\n"
+         "        res[g] = rng.choice(5, 2)\n"
+         "    out.create_dataset('a', data=res['a'])\n", False),
+        # key order of a nested dict filled from a hash-ordered list
+        ('bad_nested_key_order',
+         "def f(names, levels, rng, out):\n"
+         "    prev = dict()\n"
+         "    order = list(set(names))\n"
+         "    for lv in levels:\n"
+         "        prev[lv] = dict()\n"
+         "        for i in range(len(order)):\n"
+         "            prev[lv][order[i]] = i\n"
+         "    res = []\n"
+         "    for lv in levels:\n"
+         "        for k in list(prev[lv].keys()):\n"
+         "            res.append(rng.choice(5, 2))\n"
+         "    out.create_dataset('r', data=res)\n", True),
     ]
     for name, src, expect in cases:
         fi = _fixture(src, 'f')
